@@ -12,7 +12,8 @@ package main
 //@   guarded [C19.append_only_without_lease_error] AppendBatch(getPartitionLog(_, _, $t, $p), _, _) by lookup(acquirePartitionLeases(_, _, _), {$t, $p}) is false
 //@   guarded [C19.log_opened_only_without_lease_error] getPartitionLog(_, _, $t, $p) by lookup(acquirePartitionLeases(_, _, _), {$t, $p}) is false
 //@   guarded [C19.flush_only_without_lease_error] Flush(getPartitionLog(_, _, $t, $p), _) by lookup(acquirePartitionLeases(_, _, _), {$t, $p}) is false
-//@   frame_only
+//@   guarded [C19.success_code_only_without_lease_error] set_ErrorCode(0) by lookup(acquirePartitionLeases(_, _, _), {_, _}) is false
+//@   static_only C19
 
 // acquirePartitionLeases: with leasing active, every (topic, partition) of the request that has NO entry in the
 // returned error map was held at acquisition (c19Held). Three loops: the request is flattened into the
